@@ -4,7 +4,7 @@
 # builds the harness with and without -race, runs seeded batches in single-P worker processes.
 set -u
 export GOFLAGS=-mod=mod GOPROXY=off GOSUMDB=off GOTOOLCHAIN=local
-VERIF=/verif
+VERIF=$(dirname "$(dirname "$(readlink -f "$0")")")
 MODE=${1:-quick}
 SEED=${2:-1}
 START=$(date +%s.%N)
@@ -32,4 +32,4 @@ case "$MODE" in
   thorough) NPLAIN=4000000; NRACE=1200000;;
   *) echo "unknown tier $MODE" >&2; exit 2;;
 esac
-python3 $VERIF/conc/drive.py "$SCRATCH" "$MODE" "$SEED" "$NPLAIN" "$NRACE" "$SITES" "$START"
+VERIF=$VERIF python3 $VERIF/conc/drive.py "$SCRATCH" "$MODE" "$SEED" "$NPLAIN" "$NRACE" "$SITES" "$START"
